@@ -9,6 +9,7 @@ package vtime
 import (
 	"sort"
 	"sync"
+	"sync/atomic"
 	"time"
 )
 
@@ -34,6 +35,7 @@ type timer struct {
 	period time.Duration // >0: ticker
 	dead   bool
 	name   string
+	c      *Clock // the clock the timer was armed on (Reset may have installed another since)
 }
 
 type Clock struct {
@@ -44,14 +46,18 @@ type Clock struct {
 	Fired  int64
 }
 
-var clk = &Clock{now: time.Unix(1700000000, 0)}
+var clkp atomic.Pointer[Clock]
+
+func init() { clkp.Store(&Clock{now: time.Unix(1700000000, 0)}) }
+
+func cur() *Clock { return clkp.Load() }
 
 // Reset installs a fresh virtual clock starting at t (harness only).
 func Reset(t time.Time) {
-	clk = &Clock{now: t}
+	clkp.Store(&Clock{now: t})
 }
 
-func Now() time.Time                  { clk.mu.Lock(); defer clk.mu.Unlock(); return clk.now }
+func Now() time.Time                  { c := cur(); c.mu.Lock(); defer c.mu.Unlock(); return c.now }
 func Since(t time.Time) time.Duration { return Now().Sub(t) }
 func Until(t time.Time) time.Duration { return t.Sub(Now()) }
 func Unix(sec, nsec int64) time.Time  { return time.Unix(sec, nsec) }
@@ -60,7 +66,7 @@ func (c *Clock) add(d time.Duration, period time.Duration, name string) *timer {
 	c.mu.Lock()
 	defer c.mu.Unlock()
 	c.seq++
-	t := &timer{at: c.now.Add(d), seq: c.seq, ch: make(chan time.Time, 1), period: period, name: name}
+	t := &timer{at: c.now.Add(d), seq: c.seq, ch: make(chan time.Time, 1), period: period, name: name, c: c}
 	c.timers = append(c.timers, t)
 	return t
 }
@@ -70,21 +76,22 @@ func Sleep(d time.Duration) {
 	if d <= 0 {
 		return
 	}
-	t := clk.add(d, 0, "sleep")
+	t := cur().add(d, 0, "sleep")
 	<-t.ch
 }
 
-func After(d time.Duration) <-chan time.Time { return clk.add(d, 0, "after").ch }
+func After(d time.Duration) <-chan time.Time { return cur().add(d, 0, "after").ch }
 
 type Timer struct {
 	C <-chan time.Time
 	t *timer
 }
 
-func NewTimer(d time.Duration) *Timer { t := clk.add(d, 0, "timer"); return &Timer{C: t.ch, t: t} }
+func NewTimer(d time.Duration) *Timer { t := cur().add(d, 0, "timer"); return &Timer{C: t.ch, t: t} }
 func (t *Timer) Stop() bool {
-	clk.mu.Lock()
-	defer clk.mu.Unlock()
+	c := t.t.c
+	c.mu.Lock()
+	defer c.mu.Unlock()
 	was := !t.t.dead
 	t.t.dead = true
 	return was
@@ -95,15 +102,19 @@ type Ticker struct {
 	t *timer
 }
 
-func NewTicker(d time.Duration) *Ticker { t := clk.add(d, d, "ticker"); return &Ticker{C: t.ch, t: t} }
-func (t *Ticker) Stop()                 { clk.mu.Lock(); t.t.dead = true; clk.mu.Unlock() }
+func NewTicker(d time.Duration) *Ticker {
+	t := cur().add(d, d, "ticker")
+	return &Ticker{C: t.ch, t: t}
+}
+func (t *Ticker) Stop() { c := t.t.c; c.mu.Lock(); t.t.dead = true; c.mu.Unlock() }
 
 // Pending lists the live timers in firing order (harness only).
 func Pending() []string {
-	clk.mu.Lock()
-	defer clk.mu.Unlock()
+	c := cur()
+	c.mu.Lock()
+	defer c.mu.Unlock()
 	var out []string
-	for _, t := range clk.live() {
+	for _, t := range c.live() {
 		out = append(out, t.name)
 	}
 	return out
@@ -130,6 +141,7 @@ func (c *Clock) live() []*timer {
 // re-armed; a tick that finds its channel full is dropped, as in package time).
 // Returns false when no timer is pending.
 func FireNext() bool {
+	clk := cur()
 	clk.mu.Lock()
 	l := clk.live()
 	if len(l) == 0 {
@@ -156,11 +168,12 @@ func FireNext() bool {
 }
 
 // Advance moves the clock forward without firing anything (harness only).
-func Advance(d time.Duration) { clk.mu.Lock(); clk.now = clk.now.Add(d); clk.mu.Unlock() }
+func Advance(d time.Duration) { c := cur(); c.mu.Lock(); c.now = c.now.Add(d); c.mu.Unlock() }
 
 // FireDue advances the clock to the earliest live timer and fires every timer due at that
 // instant (so that the result does not depend on the order in which goroutines armed them).
 func FireDue() int {
+	clk := cur()
 	clk.mu.Lock()
 	l := clk.live()
 	if len(l) == 0 {
